@@ -145,3 +145,15 @@ Proof.
   apply (C02_verifier_equiv QcF QcF_ok QcM QcM_ok 2 1 jprom jH jGb jG jHs jVs (q 89) (q 79) (q 83) jLR (q 71) (q 73) [q 61; q 67] (q 3) (q 5) (q 11) (q 9) [q 7; q 2]);
     try reflexivity; try (cbn; Lia.lia); try (cbn; discriminate); repeat constructor; cbn; discriminate.
 Qed.
+
+(** the premise the harness tests on every statement (tools/lib/sessions.py): the generators are pairwise distinct points.  It is necessary: over
+    two equal generators G_j = H_j the commitment A binds only the sum of the two coefficients, so a digit can be moved between a_L and a_R after
+    the challenges are known *)
+From BP Require Import Proofs.CancelP.
+Theorem C02_equal_generators_are_not_binding : forall (K : Fld), FldOk K -> forall (M : Mod K), ModOk K M ->
+  forall (aL aR : list K) (Gs Hs : list M) j delta,
+  (j < length aL)%nat -> length aL = length Gs -> (j < length aR)%nat -> length aR = length Hs ->
+  nth j Gs (v0 M) = nth j Hs (v0 M) ->
+  vadd M (msm (add_at K j delta aL) Gs) (msm (add_at K j (fopp K delta) aR) Hs) = vadd M (msm aL Gs) (msm aR Hs).
+Proof. exact equal_generators_not_binding. Qed.
+Print Assumptions C02_equal_generators_are_not_binding.
